@@ -89,6 +89,8 @@ func (x *fnExec) execInstr(st *State, in ssa.Instruction) bool {
 			}
 			st.locs[i] = Loc{Kind: "sliceelem", Slice: sl, Idx: idx.S, Sort: sliceElem[sl.Sort], T: et}
 			x.safety(st, in, "index", "(and (>= "+idx.S+" 0) (< "+idx.S+" "+sliceLen(sl)+"))")
+			// an index out of range panics; execution continues only in range
+			st.assume("(and (>= " + idx.S + " 0) (< " + idx.S + " " + sliceLen(sl) + "))")
 		}
 	case *ssa.Index:
 		a := x.val(st, i.X)
@@ -244,8 +246,9 @@ func (x *fnExec) execInstr(st *State, in ssa.Instruction) bool {
 				x.typeFacts(st, nv, true)
 			}
 		} else {
-			// string index
+			// string index: out of range panics (non-zero exit); execution continues only in range
 			x.safety(st, in, "strindex", "(and (>= "+idx.S+" 0) (< "+idx.S+" (str.len "+xv.S+")))")
+			st.assume("(and (>= " + idx.S + " 0) (< " + idx.S + " (str.len " + xv.S + ")))")
 			st.vals[i] = mkTerm("(str.to_code (str.at "+xv.S+" "+idx.S+"))", sInt, i.Type())
 		}
 	case *ssa.Slice:
